@@ -164,7 +164,8 @@ def judge_session(ctx, P, variant, s, ireply, mreply, state):
         if a == b: continue
         if a.startswith('{') and b.startswith('{'):
             da, db = parse_obs(a), parse_obs(b)
-            diff = [f for f in da if da.get(f) != db.get(f) and f != 'ret']
+            # not compared: ret (judged by the property above); cap, avg (capacity accounting / used_average: bookkeeping of the pool policy)
+            diff = [f for f in da if da.get(f) != db.get(f) and f not in ('ret', 'cap', 'avg')]
             if not diff: continue
             if fired: return
             f = diff[0]
@@ -257,7 +258,16 @@ def run_part_a(ctx, P, default, traces):
     ss = part_a_sessions(ctx, P, default, traces)
     lines = [s.line() for s in ss]
     ires = lib.run_harness_resilient(H, lines)
-    mres = ctx.run_model('emitter', ['em %d %s' % (P, l) for l in lines])
+    # the reset pool policy (how many spare pages a reset keeps) is an oracle input of the model: pass what the
+    # implementation was observed to do (reply token r<kept>) on to the model (request token r:<kept>)
+    mlines = []
+    for s, l, a in zip(ss, lines, ires):
+        it = TOK.findall(a) if not a.startswith('CRASH') else []
+        toks = l.split(' ')
+        for j, o in enumerate(s.ops):
+            if o[0] == 'r' and j < len(it) and re.fullmatch(r'r\d+', it[j]): toks[j] = 'r:' + it[j][1:]
+        mlines.append('em %d %s' % (P, ' '.join(toks)))
+    mres = ctx.run_model('emitter', mlines)
     for s, l, a, b in zip(ss, lines, ires, mres):
         ctx.count('%d %s' % (P, l), klass='%s/P=%d' % (s.klass, P) if not default else s.klass)
         judge_session(ctx, P, 'default' if default else 'P=%d' % P, s, a, b, None)
@@ -452,7 +462,7 @@ def run_part_b(ctx, consts):
             rd = dict(kv.split('=', 1) for kv in rec.split()[1:])
             dd = dict(kv.split('=', 1) for kv in de.split()[1:])
             sums[tag] = rd.get('sum')
-            if tag != 'A' and rd['shape'].startswith('call0:') and rd['rc'] == '0':
+            if tag != 'A' and rd['shape'].startswith('call0:') and ('-is-not-start' in rd['shape'] or '-is-not-end' in rd['shape']):
                 ctx.violation('reset-does-not-rewind-range', 'builder scenario `%s` round %s (reused builder with a custom emitter after reset): the first emit call does not start from '
                               'origin 0: %s (builder reports start=%s end=%s size=%s)' % (l, tag, rd['shape'], rd['bstart'], rd['bend'], rd['bsize']), replay); break
             if rd['rc'] != '0' or dd['rc'] != '0':
